@@ -1,9 +1,75 @@
 import Lean.Data.Json
-/-! Line-protocol handler for property C03 (model side of the correspondence). -/
+import SpoxModel.Model.Front
+import SpoxModel.Generated.RenamesIR
+/-! Line-protocol handler for C03 (also used by C12): run `spox.build`'s front-end model on an
+    abstract program and a request; report graph inputs/outputs, the error class and the names of
+    all Vars afterwards. The IR of `_temporary_renames` is the one generated from /repo. -/
 namespace Drv.C03
-open Lean
+open Lean Front
 
-/-- One request (a JSON value) in, one response (a JSON value) out. -/
-def handle (_req : Json) : Json := Json.mkObj [("error", "unimplemented")]
+def parseBody (j : Json) : Except String Body := do
+  return ⟨(← j.getObjValAs? (List Nat) "formals"), (← j.getObjValAs? (List Nat) "results")⟩
+
+def parseObj (j : Json) : Except String Obj := do
+  let subsJ ← j.getObjValAs? (List Json) "subs"
+  return { isVar := (← j.getObjValAs? Bool "var"), isArg := (← j.getObjValAs? Bool "arg"),
+           ty := (← j.getObjValAs? String "ty"), deps := (← j.getObjValAs? (List Nat) "deps"),
+           subs := (← subsJ.mapM parseBody) }
+
+def parseEntry (j : Json) : Except String Entry := do
+  match j with
+  | .arr #[n, o] => return ⟨(← fromJson? n), (← fromJson? o)⟩
+  | _ => throw "bad entry"
+
+def insertSorted (a : Nat) : List Nat → List Nat
+  | [] => [a]
+  | b :: r => if a ≤ b then a :: b :: r else b :: insertSorted a r
+
+/-- a few permutations standing for Python's set iteration order -/
+def perm (k : Nat) (l : List Nat) : List Nat :=
+  match k with
+  | 0 => l
+  | 1 => l.reverse
+  | 2 => match l with | [] => [] | a :: r => r ++ [a]
+  | 3 => l.foldr insertSorted []
+  | _ => (l.foldr insertSorted []).reverse
+
+def storeOf (init : List (Nat × String)) : Renames.Store :=
+  fun v => (init.find? (fun e => e.1 == v)).map (·.2)
+
+def parseStore (req : Json) : Except String (List (Nat × String)) := do
+  match req.getObjVal? "store" with
+  | .ok (.arr a) => a.toList.mapM (fun j => match j with
+      | .arr #[i, n] => do return ((← fromJson? i), (← fromJson? n))
+      | _ => throw "bad store entry")
+  | _ => return []
+
+def errName : Err → String
+  | .type => "Type" | .value => "Value" | .key => "Key" | .build => "Build" | .scope => "Scope"
+
+def vinfos (l : List VInfo) : Json := toJson (l.map (fun i => [i.name, i.ty]))
+
+def handle (req : Json) : Json :=
+  match (do
+    let objsJ ← req.getObjValAs? (List Json) "objs"
+    let objs ← objsJ.mapM parseObj
+    let P := objs.reverse
+    let ins ← (← req.getObjValAs? (List Json) "inputs").mapM parseEntry
+    let outs ← (← req.getObjValAs? (List Json) "outputs").mapM parseEntry
+    let drop ← req.getObjValAs? Bool "drop"
+    let pi := (req.getObjValAs? Nat "pi").toOption.getD 0
+    let fixed := (req.getObjValAs? Bool "fixed").toOption.getD true
+    let store := storeOf (← parseStore req)
+    let (s1, r) := build Generated.RenamesIR.ir P (perm pi) fixed ⟨ins, outs, drop⟩ store
+    let names : List Json := (List.range objs.length).map (fun v => match s1 v with
+      | some n => Json.str n | none => Json.null)
+    let res := match r with
+      | .ok m => Json.mkObj [("inputs", vinfos m.inputs), ("outputs", vinfos m.outputs),
+                              ("outVars", toJson m.outVars)]
+      | .error e => Json.mkObj [("err", errName e)]
+    return Json.mkObj [("res", res), ("names", Json.arr names.toArray),
+                       ("free", toJson (freeArgs P outs))]) with
+  | .ok j => j
+  | .error e => Json.mkObj [("error", e)]
 
 end Drv.C03
